@@ -120,6 +120,7 @@ type GCPMultiEndpoint struct {
 	gcpConfig   *pb.ApiConfig
 	dialFunc    func(ctx context.Context, target string, dopts ...grpc.DialOption) (*grpc.ClientConn, error)
 	log         grpclog.LoggerV2
+	closed      bool
 
 	grpc.ClientConnInterface
 }
@@ -147,6 +148,11 @@ func (gme *GCPMultiEndpoint) pickConn(ctx context.Context) *grpc.ClientConn {
 }
 
 func (gme *GCPMultiEndpoint) Close() error {
+	// Close walks the pools map: it must not run in the middle of an update, and an update that
+	// comes later must not add pools and monitors to a closed object.
+	gme.mu.Lock()
+	defer gme.mu.Unlock()
+	gme.closed = true
 	var errs multiError
 	for e, mc := range gme.pools {
 		mc.stopMonitoring()
@@ -305,6 +311,9 @@ func (gme *GCPMultiEndpoint) UpdateMultiEndpoints(meOpts *GCPMultiEndpointOption
 	}
 	gme.mu.Lock()
 	defer gme.mu.Unlock()
+	if gme.closed {
+		return fmt.Errorf("GCPMultiEndpoint is closed")
+	}
 	if _, ok := meOpts.MultiEndpoints[meOpts.Default]; !ok {
 		return fmt.Errorf("default MultiEndpoint %q missing options", meOpts.Default)
 	}
